@@ -395,6 +395,10 @@ def job_table(j):
 
 
 def run(tier, seed, rep):
+    # histories of public API calls and device changes on one object; the poll that follows each history is judged
+    from .. import api_sessions
+    _api = api_sessions.explore(tier, seed, {'C12'})
+    rep.add_many([v for v in _api['violations'] if v['prop'] == 'C12'])
     nmap = address_map_part(rep)
     ntab = 0
     for n, res in pmap(job_table, [(i, seed) for i in range(len(all_tables()))]):
@@ -427,7 +431,7 @@ def run(tier, seed, rep):
                        disagreements=rmism[:5])
     except Exception as e:  # noqa: BLE001
         refconf = dict(error=f'{type(e).__name__}: {e}')
-    cov = dict(reference_decoder_conformance=refconf, api_values_compared=napi, api_configurations=len(ajobs),
+    cov = dict(api_session_histories=_api['histories'], api_session_states=_api['states'], reference_decoder_conformance=refconf, api_values_compared=napi, api_configurations=len(ajobs),
                evaluations=total + nmap + ntab + napi, uniform_table_evaluations=ntab, distinct_nontrivial=nontriv, register_map_entries_compared=nmap,
                rule='for every sensor with own registers of every table of ET, DT, ES: own-register contents '
                     '(all 65536 values of 2-byte fields and of each half of 4-byte fields, all 256 values of 1-byte fields '
@@ -448,6 +452,11 @@ def run(tier, seed, rep):
 
 
 def replay(r):
+    if r.get('part') == 'api-session':
+        from .. import api_sessions
+        out = api_sessions.replay(r)
+        out['violations'] = [m for m in out['violations'] if m[0] == 'C12']
+        return out
     if r.get('part') == 'api':
         cfg = r['cfg']
         cfg['refused'] = tuple(cfg['refused'])
